@@ -57,7 +57,7 @@ def _icap_csv_columns_read(
 
         structured = np.empty(
             (data["data"].shape[1], np.amax(data["scan"]) + 1),
-            dtype=[(name, np.float64) for name in names],
+            dtype=[(str(name), np.float64) for name in names],
         )
         for name in names:
             structured[name] = data[data["name"] == name]["data"].T
@@ -140,7 +140,7 @@ def _icap_csv_rows_read(
         unames = unames[np.argsort(idx)]
 
         structured = np.empty(
-            (data.shape[0], np.amax(scans) + 1), dtype=[(n, float) for n in unames]
+            (data.shape[0], np.amax(scans) + 1), dtype=[(str(n), float) for n in unames]
         )
         for name in structured.dtype.names:
             structured[name] = data[:, names == name]
